@@ -305,8 +305,11 @@ def confirm_failures(report, native_confirm=None):
             continue
         cmd = ["cargo", "kani", "--target-dir", crate.target, "--exact", "--harness", "h::" + h.name,
                "-Z", "concrete-playback", "--concrete-playback=inplace"] + KANI_FLAGS
-        rc, out, dt = common.run(cmd, cwd=crate.dir, env=common.base_env(), timeout=h.timeout or 900)
-        src = open(os.path.join(crate.dir, "src", "lib.rs")).read()
+        for attempt in range(2):
+            rc, out, dt = common.run(cmd, cwd=crate.dir, env=common.base_env(), timeout=max(h.timeout or 0, 900))
+            src = open(os.path.join(crate.dir, "src", "lib.rs")).read()
+            if ("kani_concrete_playback_%s_" % h.name) in src:
+                break
         tests = []
         for m in re.finditer(r"/// Check for `(\w+)`: [^\n]*\n(?:\s*///[^\n]*\n|\s*\n)*\s*#\[test\]\s*fn (kani_concrete_playback_%s_\d+)\(" % re.escape(h.name), src):
             if m.group(1) != "cover":
